@@ -3,8 +3,9 @@
 // and B only. Both are followers (SanityCheckNewHeight+Store) fed by sequencer nodes. NA and NB must
 // be indistinguishable: every blockchain.Reader query, the state readers (by number, by hash, head),
 // the event filter, and the raw database bucket by bucket. NA's op sequence also runs through the
-// extracted model C04.Model (store_node / revert_node): op outcomes (incl. the legacy guard
-// no_noop_zero_write) and the decoded content of every index family are compared.
+// extracted model C04.Model (store_node / revert_node): op outcomes and the decoded content of every
+// index family are compared. Every stored block must be revertible on both backends (zero writes to
+// absent slots, which broke the legacy RevertHead before juno commit 1b89e86, are generated on purpose).
 package main
 
 import (
@@ -171,7 +172,6 @@ type result struct {
 	families    int // model families compared
 	reverts     int
 	normalised  int  // legacy trie records whose zero-hash trailer was stripped before the raw comparison
-	revertKnown bool // stopped at the known legacy failure
 	stopped     string
 	detail      []string
 }
@@ -216,8 +216,6 @@ func shortReason(err error) string {
 	}
 	return strings.Trim(s, "-")
 }
-
-const knownClass = "legacy:revert-fails-after-noop-zero-write"
 
 func runSpec(ar *sh.Arena, or *hx.Oracle, sp *Spec, verbose bool) *result {
 	res := &result{}
@@ -347,14 +345,9 @@ func runSpec(ar *sh.Arena, or *hx.Oracle, sp *Spec, verbose bool) *result {
 		predictedOK := idx < len(rep.bits) && rep.bits[idx] == '1'
 		switch {
 		case failed:
-			guardOK := rep.guard[opBlock[pos]] == '1'
-			if sp.Backend == "legacy" && !predictedOK && !guardOK && strings.Contains(revertErr.Error(), "check head state") {
-				res.revertKnown = true
-				res.add(knownClass, fmt.Sprintf("legacy backend: block %d writes 0 to an absent slot (guard no_noop_zero_write = 0), is stored, and RevertHead then fails: %v; %s", pos, revertErr, sp), false)
-			} else {
-				res.add(fmt.Sprintf("%s:revert-fails:%s", sp.Backend, shortReason(revertErr)),
-					fmt.Sprintf("%s backend: RevertHead of block %d fails: %v (model predicts success=%v, legacy guard=%v); %s", sp.Backend, pos, revertErr, predictedOK, guardOK, sp), false)
-			}
+			// every block the node stored must be revertible on both backends
+			res.add(fmt.Sprintf("%s:revert-fails:%s", sp.Backend, shortReason(revertErr)),
+				fmt.Sprintf("%s backend: RevertHead of block %d fails: %v (model predicts success=%v); %s", sp.Backend, pos, revertErr, predictedOK, sp), false)
 		case !predictedOK:
 			res.add("model-mismatch:revert-outcome", fmt.Sprintf("%s backend: RevertHead of block %d succeeded but C04.Model predicts a failure; %s", sp.Backend, pos, sp), true)
 		}
@@ -777,8 +770,6 @@ func main() {
 			c.Hist[l]++
 		}
 		switch {
-		case j.res.revertKnown:
-			c.Hist["outcome:revert-failed-known"]++
 		case j.res.stopped != "":
 			c.Hist["outcome:"+strings.ReplaceAll(j.res.stopped, " ", "-")]++
 		default:
@@ -814,7 +805,7 @@ func main() {
 	c.Finish("fork experiments per state backend: prefix P (0..4 blocks), fork A (1..4 blocks) stored and reverted block by block, fork B (0..4 blocks); 25% single block stored+reverted, 10% forks from genesis; " +
 		"blocks carry deployments, replacements, nonces, writes (incl. zero-over-nonzero, same value; zero to an absent slot injected in 13% of fork-A blocks), Cairo0 and Sierra declarations, CASM migrations (0.14.1 blocks), " +
 		"invoke transactions with events, L1-handler transactions, system-contract writes, empty blocks; node A (P, A, reverts, B) is compared with node B (P, B) on every Reader query over all numbers / block / tx / L1-message hashes ever produced, " +
-		"the state readers, the event filter and the raw database; node A's op sequence runs through C04.Model (outcomes, legacy guard, 13 decoded index families); non-trivial = fork depth >= 2 or a feature beyond plain writes")
+		"the state readers, the event filter and the raw database; node A's op sequence runs through C04.Model (outcomes, 13 decoded index families); non-trivial = fork depth >= 2 or a feature beyond plain writes")
 }
 
 var _ = felt.Zero
